@@ -83,7 +83,17 @@ func safeRun(p *Prop, sc any, tr *Trace) (res *Result, herr string) {
 			res = nil
 		}
 	}()
-	return p.Run(sc, tr), ""
+	return Run(p, sc, tr), ""
+}
+
+// Run executes one scenario with the runtime's coin (select choice, order of equal-deadline
+// timers) pinned to a value derived from the scenario itself, so that the same scenario
+// makes the same choices in any process.
+func Run(p *Prop, sc any, tr *Trace) *Result {
+	b, _ := json.Marshal(sc)
+	SetRuntimeSeed(Hash64(0x5eed, p.ID, string(b)) | 1)
+	defer SetRuntimeSeed(0)
+	return p.Run(sc, tr)
 }
 
 func loadKnown() []KnownFinding {
@@ -128,9 +138,16 @@ func WorkerMain() int {
 	}
 	if os.Getenv("VERIF_INFO") != "" {
 		b, _ := json.Marshal(map[string]any{"id": p.ID, "level": p.Level, "rule": p.Rule, "assumptions": p.Assumptions,
-			"components": p.Components, "per_chunk": p.PerChunk, "quick": p.Quick, "thorough": p.Thorough})
+			"components": p.Components, "single_p": p.Warmup, "per_chunk": p.PerChunk, "quick": p.Quick, "thorough": p.Thorough})
 		fmt.Println("INFO " + string(b))
 		return 0
+	}
+	// Warm-up: one fixed throw-away scenario per process. sdns starts a few process-wide
+	// goroutines lazily (metric flushers, loggers); they belong to the bubble of whichever
+	// scenario runs first and draw from the runtime's coin there. Spending them on a
+	// scenario nobody looks at makes the N-th scenario of a batch behave as it does alone.
+	if p.Warmup {
+		_, _ = safeRun(p, p.WarmupScenario(), &Trace{})
 	}
 	if rp := os.Getenv("VERIF_REPLAY"); rp != "" {
 		return replayMain(p, rp)
@@ -255,6 +272,13 @@ func handleViolation(p *Prop, id, tier string, seed uint64, sc any, v *Violation
 	sc = cloneScenario(p, sc)
 	tr := &Trace{}
 	res, e := safeRun(p, sc, tr)
+	// A scenario whose outcome hangs on a same-instant race inside sdns can come out
+	// differently on a re-run (DESIGN.md, determinism limits): give it a few more chances
+	// before calling the observation unreproducible.
+	for try := 0; try < 4 && e == "" && (res.Viol == nil || res.Viol.Class != v.Class); try++ {
+		tr = &Trace{}
+		res, e = safeRun(p, sc, tr)
+	}
 	if e != "" || res.Viol == nil || res.Viol.Class != v.Class {
 		got := "none"
 		if res != nil && res.Viol != nil {
